@@ -80,6 +80,17 @@ func (fsEngine) Gen(r *Rand, tier string) any {
 		"ROOT/f0.lisp", "ROOT/A/f1.lisp", "ROOT/u0.lisp"} {
 		add(f, "file", "")
 	}
+	// files that load other files: a nested relative location resolves against
+	// the directory of the file that contains the load-file call
+	for f := range chainFiles {
+		add(f, "file", "")
+	}
+	add("root/f1.lisp", "file", "") // decoy: what a sibling load from root/a finds when resolved against the wrong directory
+	add("outside/f2.lisp", "file", "")
+	if !c.MemFS {
+		add("root/lchain.lisp", "link", "a/chain.lisp")
+		add("root/a/b/lup.lisp", "link", "../chain-up.lisp")
+	}
 	if !c.MemFS {
 		add("rootlink", "link", "root")
 		dirsIn := []string{"root", "root/a", "root/a/b"}
@@ -244,8 +255,54 @@ type fsDisk struct {
 	content map[string]string // content -> node path
 }
 
+// chainFiles: file -> forms evaluated after the file's own mark.
+var chainFiles = map[string]string{
+	"root/a/chain.lisp":     `(load-file "b/f2.lisp")`,
+	"root/a/chain-up.lisp":  `(load-file "../f0.lisp")`,
+	"root/a/chain-out.lisp": `(load-file "../../outside/s0.lisp")`,
+	"root/a/chain2.lisp":    `(load-file "chain.lisp")`,
+	"root/a/defs.lisp":      `(defun load-sibling () (load-file "f1.lisp"))`,
+	"root/call.lisp":        `(load-file "a/defs.lisp") (load-sibling)`,
+	"root/a/b/deep.lisp":    `(load-file "../../../outside/f2.lisp")`,
+}
+
+type chainStep struct{ loc, from string }
+
+// chainSteps: the loads a file performs when evaluated, in order (from = the
+// file whose text contains the load-file call, "" = the file itself).
+var chainSteps = map[string][]chainStep{
+	"root/a/chain.lisp":     {{"b/f2.lisp", ""}},
+	"root/a/chain-up.lisp":  {{"../f0.lisp", ""}},
+	"root/a/chain-out.lisp": {{"../../outside/s0.lisp", ""}},
+	"root/a/chain2.lisp":    {{"chain.lisp", ""}},
+	"root/call.lisp":        {{"a/defs.lisp", ""}, {"f1.lisp", "root/a/defs.lisp"}},
+	"root/a/b/deep.lisp":    {{"../../../outside/f2.lisp", ""}},
+}
+
+// chainSim lists the files evaluated when entry is loaded, given how a nested
+// location resolves, and whether the load ends in an error.
+func chainSim(entry string, resolve func(from, loc string) (string, bool)) ([]string, bool) {
+	seq := []string{entry}
+	for _, st := range chainSteps[entry] {
+		from := st.from
+		if from == "" {
+			from = entry
+		}
+		target, ok := resolve(from, st.loc)
+		if !ok {
+			return seq, true
+		}
+		sub, fail := chainSim(target, resolve)
+		seq = append(seq, sub...)
+		if fail {
+			return seq, true
+		}
+	}
+	return seq, false
+}
+
 func fileContent(p string) string {
-	return fmt.Sprintf(";; file %s\n(sim:mark %s)\n", p, LispString(p))
+	return fmt.Sprintf(";; file %s\n(sim:mark %s)\n%s\n", p, LispString(p), chainFiles[p])
 }
 
 func (d *fsDisk) abs(t string) string {
@@ -384,6 +441,13 @@ func (c *FsCase) locations(d *fsDisk) []fsLoad {
 	for _, extra := range []string{"/etc/hostname", "../../../../../../../../etc/hostname", d.base + "/root-x/x0.lisp", d.base + "/root/../root-x/x0.lisp"} {
 		out = append(out, fsLoad{via: "LoadSource", loader: "root/f0.lisp", loc: extra})
 	}
+	// files that load other files, entered directly and through links
+	for _, l := range []string{"a/chain.lisp", "a/chain-up.lisp", "a/chain-out.lisp", "a/chain2.lisp", "call.lisp", "a/b/deep.lisp", "lchain.lisp", "a/b/lup.lisp",
+		"a/../a/chain.lisp", "./call.lisp"} {
+		out = append(out, fsLoad{via: "load-file", loader: "root/f0.lisp", loc: l})
+	}
+	out = append(out, fsLoad{via: "load-file", loader: "root/a/f1.lisp", loc: "chain.lisp"}, fsLoad{via: "load-file", loader: "root/a/f1.lisp", loc: "../call.lisp"},
+		fsLoad{via: "load-file", loader: "root/f0.lisp", loc: d.base + "/root/a/chain2.lisp"})
 	// end-to-end loads through (load-file ...) evaluated from a loader file
 	for i := 0; i < 60 && len(c.Picks) > 0; i++ {
 		l := out[pick(len(out))]
@@ -644,17 +708,44 @@ func (fsEngine) Run(ci any, st *Stats) *Violation {
 		}
 		got := ""
 		if len(evaluated) > 0 {
-			got = evaluated[len(evaluated)-1]
+			got = evaluated[0]
 		}
 		if lerr == nil && got != "" {
 			st.Inc("served_inside_root")
 			if expectKnown && !advFired && got != expect {
 				return fail("wrong-file-served", "served %q; resolving the location against the loading file's directory names %q", got, expect)
 			}
+			if expectKnown && !advFired && ld.via == "load-file" {
+				// files that load files: each nested relative location resolves
+				// against the directory of the file containing the call
+				want, wfail := chainSim(expect, func(from, l string) (string, bool) {
+					real, kind, ok := d.spec.resolve(append(strings.Split(path.Dir(from), "/"), strings.Split(l, "/")...))
+					return real, ok && kind == "file" && insideRoot(real)
+				})
+				if len(want) > 1 || wfail {
+					st.Inc("reach_nested_load_from_loaded_file")
+					nontrivial = true
+				}
+				if wfail || strings.Join(want, " ") != strings.Join(evaluated, " ") {
+					return fail("nested-load-differs", "files evaluated, in order: %v; resolving each nested location against the directory of the file that contains the call gives %v (fails: %v)", evaluated, want, wfail)
+				}
+			}
 		} else {
+			if lerr != nil && got != "" && got == expect && expectKnown && !advFired && ld.via == "load-file" {
+				// the entry file was evaluated and one of ITS loads failed
+				want, wfail := chainSim(expect, func(from, l string) (string, bool) {
+					real, kind, ok := d.spec.resolve(append(strings.Split(path.Dir(from), "/"), strings.Split(l, "/")...))
+					return real, ok && kind == "file" && insideRoot(real)
+				})
+				if !wfail || strings.Join(want, " ") != strings.Join(evaluated, " ") {
+					return fail("nested-load-differs", "files evaluated before the load failed (%v): %v; resolving each nested location against the directory of the file that contains the call gives %v (fails: %v)", lerr, evaluated, want, wfail)
+				}
+				st.Inc("reach_nested_load_refused_outside_root")
+			}
 			st.Inc("refused_or_failed")
 			if expectKnown && expect != "" && insideRoot(expect) && !advFired {
 				st.Inc("over_refusal_of_inside_file")
+
 			}
 		}
 		if strings.Contains(ld.loc, "..") {
